@@ -16,9 +16,11 @@ class Version(SQLObject):
                              connection=connection).set(**values)
 
     def nextVersion(self):
+        # the later versions live where this version lives
+        connection = self.sqlmeta._perConnection and self._connection or None
         version = self.select(
             AND(self.q.masterID == self.masterID, self.q.id > self.id),
-            orderBy=self.q.id)
+            orderBy=self.q.id, connection=connection)
         if version.count():
             return version[0]
         else:
